@@ -238,6 +238,7 @@ def check(ctx):
     from . import c18x
 
     c18x.filter_default_kept(ctx)
+    c18x.crossbar_create_provides(ctx)
     c18x.product_default_combiner(ctx)
 
 
